@@ -11,6 +11,7 @@ import (
 	"net/http"
 	"net/url"
 	"os"
+	"path"
 	"strconv"
 	"strings"
 	"time"
@@ -518,7 +519,9 @@ func convPath(s string) (string, error) {
 	if err != nil {
 		return "", err
 	}
-	return u.Path + "/v1/logs", nil
+	// Join (instead of concatenating) so that a trailing slash of the generic
+	// endpoint does not produce "//v1/logs".
+	return path.Join("/", u.Path, "v1/logs"), nil
 }
 
 // convInsecure parses s as a URL string and returns if the connection should
